@@ -1,0 +1,98 @@
+//go:build verif
+
+package main
+
+import (
+	"context"
+	"encoding/json"
+	"io"
+	"os"
+	"path/filepath"
+	"sort"
+	"strings"
+
+	"github.com/ludo-technologies/pyscn/domain"
+	"github.com/ludo-technologies/pyscn/service"
+)
+
+func init() {
+	// imports: run the production dependency analysis (service.AnalyzeDependencies:
+	// ModuleAnalyzer.AnalyzeFiles, coupling metrics, dependency matrix, max depth) on the
+	// Python files below a directory and dump edges, per-module metrics and max depth.
+	// "files" (optional, relative to dir) fixes the order in which the files are handed over.
+	register("imports", func(raw json.RawMessage) (interface{}, error) {
+		var req struct {
+			Dir   string   `json:"dir"`
+			Files []string `json:"files"`
+		}
+		if err := json.Unmarshal(raw, &req); err != nil {
+			return nil, err
+		}
+		var files []string
+		if len(req.Files) > 0 {
+			for _, f := range req.Files {
+				files = append(files, filepath.Join(req.Dir, f))
+			}
+		} else {
+			_ = filepath.Walk(req.Dir, func(p string, info os.FileInfo, err error) error {
+				if err == nil && !info.IsDir() && strings.HasSuffix(p, ".py") {
+					files = append(files, p)
+				}
+				return nil
+			})
+			sort.Strings(files)
+		}
+		sreq := domain.SystemAnalysisRequest{
+			Paths:           files,
+			IncludePatterns: []string{},
+			ExcludePatterns: []string{},
+			OutputFormat:    domain.OutputFormatJSON,
+			OutputWriter:    io.Discard,
+		}
+		res, err := service.NewSystemAnalysisService().AnalyzeDependencies(context.Background(), sreq)
+		if err != nil {
+			return nil, err
+		}
+		type mm struct {
+			Module       string  `json:"module"`
+			Ca           int     `json:"ca"`
+			Ce           int     `json:"ce"`
+			Instability  float64 `json:"instability"`
+			Abstractness float64 `json:"abstractness"`
+			Distance     float64 `json:"distance"`
+			Public       int     `json:"public"`
+		}
+		var edges [][2]string
+		var modules []string
+		for from, row := range res.DependencyMatrix {
+			modules = append(modules, from)
+			for to, ok := range row {
+				if ok {
+					edges = append(edges, [2]string{from, to})
+				}
+			}
+		}
+		sort.Strings(modules)
+		sort.Slice(edges, func(i, j int) bool {
+			if edges[i][0] != edges[j][0] {
+				return edges[i][0] < edges[j][0]
+			}
+			return edges[i][1] < edges[j][1]
+		})
+		var metrics []mm
+		for _, name := range modules {
+			if m := res.ModuleMetrics[name]; m != nil {
+				metrics = append(metrics, mm{name, m.AfferentCoupling, m.EfferentCoupling, m.Instability,
+					m.Abstractness, m.Distance, len(m.PublicInterface)})
+			}
+		}
+		return map[string]interface{}{
+			"modules":            modules,
+			"edges":              edges,
+			"metrics":            metrics,
+			"max_depth":          res.MaxDepth,
+			"total_modules":      res.TotalModules,
+			"total_dependencies": res.TotalDependencies,
+		}, nil
+	})
+}
